@@ -128,6 +128,8 @@ def check(ctx):
                       "file was first replaced by a copy of the output file (on every path) or the data is written explicitly", 2)
     ctx.rule("R14.11", "readers hand stored values to the constructors without narrowing them: no float()/int()/round() or computed type cast in a "
                        "from_hdf5 function beyond the confirmed ones (float(complex) and int(float) drop information)", 1)
+    ctx.rule("R14.12", "each stored key carries the attribute that the reader feeds back into the same attribute: writer `h5[K] = self.A`, "
+                       "reader `Cls(P=h5[K])`, constructor `self.A = f(P)` name one and the same A", 12)
     ctx.rule("R14.8", "equality of sequences of sub-objects compares lengths (no silent truncation by zip)", 2)
     ctx.rule("R14.2", "options: None values are dropped on save, so every Optional field must default to None "
                       "(or the reader must restore None)", 1)
@@ -223,6 +225,7 @@ def check(ctx):
     equality_truncation(ctx)
     export_carries_data(ctx)
     reader_casts(ctx)
+    key_attribute_agreement(ctx)
     options_none(ctx)
     mesh_restorable(ctx)
     getstate_slots(ctx)
@@ -262,6 +265,24 @@ def options_none(ctx):
             admits_none = "None" in ann or "Optional" in ann
             if admits_none and not (isinstance(s.value, ast.Constant) and s.value.value is None):
                 bad.append(f"{s.target.id}: {ann} = {norm(s.value) if s.value else '<required>'}")
+    # the reader recognises Optional fields by introspecting `field.type`: that only works when the annotations are real type
+    # objects at run time (no `from __future__ import annotations`, no string annotations)
+    introspects = any(isinstance(x, ast.Attribute) and x.attr == "type" and norm(x.value) == "field" for x in ast.walk(sr.node)) or \
+        "__args__" in norm(sr.node)
+    om = repo.module("tdgl.solver.options")
+    postponed = any(isinstance(st, ast.ImportFrom) and st.module == "__future__" and any(a.name == "annotations" for a in st.names)
+                    for st in om.tree.body)
+    stringy = [s_.target.id for s_ in opt.node.body if isinstance(s_, ast.AnnAssign) and isinstance(s_.annotation, ast.Constant)
+               and isinstance(s_.annotation.value, str)]
+    lazy = postponed or bool(stringy)
+    if bad and restores_none and introspects:
+        ctx.ob("R14.2", "the reader's Optional detection sees real type objects (annotations of SolverOptions are not postponed)", not lazy,
+               detail={"from __future__ import annotations": postponed, "string annotations": stringy, "optional_fields": bad},
+               where=sr.fq, construct="field.type introspection vs postponed annotations", loc=loc(sr, sr.node),
+               message="SolverOptions' annotations are strings at run time (postponed evaluation), so `getattr(field.type, '__args__', ())` is always empty: "
+                       "no field is recognised as Optional and an unsaved None is restored as the default",
+               consequence="options saved with terminal_psi=None reload with terminal_psi=0.0: loaded.options != solution.options, and a run continued "
+                           "with the loaded options pins the terminals")
     ok = (not drops) or restores_none or not bad
     ctx.ob("R14.2", "every Optional option defaults to None (writer drops None, reader fills defaults)", ok,
            detail={"writer_drops_None": drops, "reader_restores_None": restores_none, "optional_fields_with_non_None_default": bad},
@@ -558,3 +579,70 @@ def reader_casts(ctx):
                                "imaginary part through float(), so loaded.options != solution.options")
     if n < 8:
         raise AnalysisError(f"only {n} reader functions found")
+
+
+# ---------------------------------------------------------------------------
+# R14.12 a key carries one attribute in both directions
+# ---------------------------------------------------------------------------
+
+def _const_keys(e):
+    return [x.slice.value for x in ast.walk(e) if isinstance(x, ast.Subscript) and isinstance(x.slice, ast.Constant) and isinstance(x.slice.value, str)]
+
+
+def key_attribute_agreement(ctx):
+    repo = ctx.repo
+    n = 0
+    for mod, cls, wname, rname in PAIRS:
+        C = repo.cls(mod, cls)
+        w, r = C.methods[wname], C.methods[rname]
+        # writer: key -> attribute
+        wmap = {}
+        for st in own_nodes(w.node):
+            if isinstance(st, ast.Assign) and isinstance(st.targets[0], ast.Subscript) and isinstance(st.targets[0].slice, ast.Constant) \
+                    and isinstance(st.targets[0].slice.value, str):
+                attrs = {x.attr for x in ast.walk(st.value) if isinstance(x, ast.Attribute) and isinstance(x.value, ast.Name) and x.value.id == "self"}
+                if len(attrs) == 1:
+                    wmap[st.targets[0].slice.value] = (attrs.pop(), st)
+        # reader: key -> constructor parameter
+        rmap = {}
+        for c in own_nodes(r.node):
+            if isinstance(c, ast.Call) and norm(c.func) in (cls, "cls"):
+                for k in c.keywords:
+                    if k.arg is None:
+                        continue
+                    ks = set(_const_keys(k.value))
+                    if isinstance(k.value, ast.Name):
+                        from ..dataflow import expand
+                        ks = set(_const_keys(expand(r.node, k.value)))
+                    if len(ks) == 1:
+                        rmap[ks.pop()] = k.arg
+        # constructor: parameter -> attribute
+        init = C.methods.get("__init__")
+        cmap = {}
+        if init is not None:
+            params = {a.arg for a in init.node.args.args + init.node.args.kwonlyargs} - {"self"}
+            for st in own_nodes(init.node):
+                if isinstance(st, (ast.Assign, ast.AnnAssign)) and st.value is not None:
+                    tg = st.targets[0] if isinstance(st, ast.Assign) else st.target
+                    if isinstance(tg, ast.Attribute) and isinstance(tg.value, ast.Name) and tg.value.id == "self":
+                        used = {x.id for x in ast.walk(st.value) if isinstance(x, ast.Name) and x.id in params}
+                        if len(used) == 1:
+                            cmap.setdefault(used.pop(), tg.attr)
+        else:
+            for st in C.node.body:          # dataclass: field == parameter == attribute
+                if isinstance(st, ast.AnnAssign) and isinstance(st.target, ast.Name):
+                    cmap[st.target.id] = st.target.id
+        for key, (attr, st) in sorted(wmap.items()):
+            if key not in rmap or rmap[key] not in cmap:
+                continue
+            n += 1
+            back = cmap[rmap[key]]
+            # a property setter may store under a private name (points -> _points)
+            ok = back == attr or back.lstrip("_") == attr.lstrip("_")
+            ctx.ob("R14.12", f"{cls}: key {key!r} written from self.{attr}, read into `{rmap[key]}` -> self.{back}", ok, where=w.fq,
+                   construct=f"{cls} key {key!r}: written from {attr}, restored into {back}", loc=loc(w, st),
+                   message=f"{cls}.{wname} stores `self.{attr}` under {key!r}, but {cls}.{rname} feeds that key into `{rmap[key]}`, which initialises `self.{back}`",
+                   consequence=f"a reloaded {cls} carries another quantity in `{back}` than the one that was saved (e.g. unit vectors instead of edge vectors): "
+                               "it is no longer the object that was written, and operators built on it are wrong")
+    if n < 12:
+        raise AnalysisError(f"writer/reader/constructor agreement found only {n} keys")
